@@ -7,6 +7,7 @@ from hypothesis import strategies as st
 
 import buckets
 import gem
+from props import c01
 import harness
 import mountns
 import refmanifest as R
@@ -102,7 +103,10 @@ def case(draw):
             # ask with a path relative to a working directory at or above
             # the start directory (None: absolute path)
             'cwd_level': draw(st.sampled_from(
-                [None, None] + list(range(0, start + 1))))}
+                [None, None] + list(range(0, start + 1)))),
+            # the start directory named through a symlink that sits outside
+            # (and less deep than) the chain
+            'via_link': draw(st.integers(0, 5)) == 0}
 
 
 def strat(tier):
@@ -172,6 +176,7 @@ def reference(start_path, allow_xdev, allow_compressed):
 def run_case(desc):
     base = harness.fresh_dir('c15')
     other = None
+    link_path = None
     try:
         need_mount = any(l['mount'] for l in desc['levels']) \
             or desc['linked'] is not None
@@ -217,7 +222,17 @@ def run_case(desc):
                                desc['allow_compressed'])
         ask = start
         old_cwd = os.getcwd()
-        if desc.get('cwd_level') is not None:
+        via_link = bool(desc.get('via_link'))
+        if via_link:
+            # (a short path: the link is much less deep than its target)
+            link_path = ask = os.path.join(
+                os.path.dirname(harness.scratch_root()),
+                f'gv-lnk-{os.getpid()}-{os.path.basename(base)}')
+            os.symlink(start, ask)
+            if desc.get('cwd_level') is not None:
+                os.chdir(os.path.dirname(ask))
+                ask = os.path.basename(ask)
+        elif desc.get('cwd_level') is not None:
             os.chdir(paths[desc['cwd_level']])
             ask = os.path.relpath(start, paths[desc['cwd_level']])
         try:
@@ -225,7 +240,10 @@ def run_case(desc):
                           allow_xdev=desc['allow_xdev'],
                           allow_compressed=desc['allow_compressed'])
             if oc.kind == 'return' and oc.value:
-                oc.value = os.path.abspath(oc.value)
+                # (resolved physically, while the working directory is
+                # still the one the call saw: 'lnk/../..' is not lexical)
+                oc.value = os.path.realpath(oc.value) if via_link \
+                    else os.path.abspath(oc.value)
         finally:
             os.chdir(old_cwd)
         classes = [f'manifests:{min(nman, 3)}',
@@ -238,6 +256,13 @@ def run_case(desc):
             classes.append('lookalike-ignore')
         if desc.get('cwd_level') is not None:
             classes.append('relative-start-path')
+        if via_link:
+            classes.append('symlinked-start')
+            if any(l['ign'] for l in desc['levels']):
+                # what "the starting path" is relative to a Manifest above
+                # the link's target is not settled for symlinked starts
+                return ok(classes=classes + ['symlinked-start-with-ignores'],
+                          dontcare=True)
         what = (f'find_top_level_manifest({ask!r} from cwd level '
                 f'{desc.get("cwd_level")}, depth {desc["start"]}, '
                 f'allow_xdev={desc["allow_xdev"]}, '
@@ -301,12 +326,103 @@ def run_case(desc):
         nontrivial = nman >= 2 or lookalike or need_mount
         return ok(nontrivial=nontrivial, classes=classes)
     finally:
+        if link_path is not None and os.path.islink(link_path):
+            os.unlink(link_path)
         if mountns._state['ok']:
             mountns.umount_all_under(base)
         harness.rmtree(base)
 
 
+# --- discovery per command-line path -----------------------------------------
+
+@st.composite
+def cli_paths_case(draw):
+    d = draw(c01.case())
+    nodes = d['tree']['nodes']
+    dirs = [''] + [n['p'] for n in nodes if n['t'] == 'd']
+    return {'c01': d,
+            'paths': draw(st.lists(st.sampled_from(dirs), min_size=2,
+                                   max_size=3)),
+            'cmd': draw(st.sampled_from(['verify', 'verify', 'update']))}
+
+
+def strat_cli_paths(tier):
+    return cli_paths_case()
+
+
+def run_cli_paths(desc):
+    """`gemato verify -k P1 P2 ...` is `gemato verify -k P1`, then P2, ...:
+    the top-level Manifest is searched for every path on its own."""
+    base = harness.fresh_dir('c15p')
+    try:
+        root = os.path.join(base, 'sep')
+        os.mkdir(root)
+        c01.build(desc['c01'], root)
+        both = os.path.join(base, 'all')
+        os.mkdir(both)
+        c01.build(desc['c01'], both)
+        args = ['verify', '-k'] if desc['cmd'] == 'verify' else \
+            ['update', '--hashes', 'MD5']
+        classes = ['cmd:' + desc['cmd'], f'paths:{len(desc["paths"])}']
+
+        def run(tree, subs):
+            ps = [os.path.join(tree, s) if s else tree for s in subs]
+            if not all(os.path.isdir(p) for p in ps):
+                return None
+            oc, records, _ = gem.cli(args + ps)
+            errs = gem.error_records(records)
+            # (an exception caught by main() ends the whole invocation)
+            # or an error other than a mismatch handed to the keep-going
+            # handler (no top-level Manifest, ...)
+            aborted = any(r.funcName != 'verify_failure' for r in errs) \
+                or oc.kind != 'return'
+            msgs = sorted(
+                r.getMessage().replace(tree, '<tree>') for r in errs)
+            return oc, aborted, msgs
+        sep = []
+        for sub in desc['paths']:
+            r = run(root, [sub])
+            if r is None:
+                return skip('path-vanished')
+            sep.append(r)
+            if r[1]:
+                break       # the combined run stops here as well
+        comb = run(both, desc['paths'][:len(sep)])
+        if comb is None:
+            return skip('path-vanished')
+        what = (f'`gemato {" ".join(args)}` with paths '
+                f'{desc["paths"][:len(sep)]!r}')
+        if any(oc.kind != 'return' for oc, a, m in sep) \
+                or comb[0].kind != 'return':
+            return ok(classes=classes + ['escaped-exception'],
+                      dontcare=True)       # C18's subject
+        want_rc = 1 if any(oc.value not in (0, None)
+                           for oc, a, m in sep) else 0
+        got_rc = 0 if comb[0].value in (0, None) else 1
+        want_msgs = sorted(x for oc, a, m in sep for x in m)
+        got_msgs = sorted(x.replace('<tree>', '<tree>') for x in comb[2])
+        if got_rc != want_rc:
+            return violation(
+                f'{what}: exit status {comb[0].value!r}, one by one: '
+                f'{[oc.value for oc, a, m in sep]!r}; messages together '
+                f'{got_msgs[:4]!r}, one by one {want_msgs[:4]!r}',
+                sig='paths-together-differ:exit-status', classes=classes)
+        if desc['cmd'] == 'verify' and got_msgs != want_msgs:
+            return violation(
+                f'{what}: errors reported together {got_msgs[:6]!r}, one '
+                f'by one {want_msgs[:6]!r}',
+                sig='paths-together-differ:messages', classes=classes)
+        distinct = len(set(desc['paths'][:len(sep)])) >= 2
+        return ok(nontrivial=distinct, classes=classes + (
+            ['some-failure'] if want_rc else ['all-pass']))
+    finally:
+        harness.rmtree(base)
+
+
 PARTS = [
+    Part('cli-paths', run_cli_paths, strategy=strat_cli_paths,
+         examples={'quick': 4000, 'thorough': 60000},
+         budget={'quick': 30, 'thorough': 400}),
     Part('discovery', run_case, strategy=strat,
          examples={'quick': 30000, 'thorough': 600000},
          budget={'quick': 50, 'thorough': 600}),
